@@ -16,11 +16,20 @@ LEVEL = "model_checking"
 def run(ctx):
     ctx.assumptions += ["thread timings of ThreadPoolExecutor, tf.data and asyncio internals are sampled, not "
                         "enumerated; LazyPool and the Rust map get exhaustive small-schedule coverage in C13 / C15",
-                        "stage models are exhaustive for sources of length <= 7 and buffers <= 4"]
+                        "stage models are exhaustive for sources of length <= 7 and buffers <= 4; the shuffle buffer's bag "
+                        "invariant is additionally proved for all lengths and buffer sizes (finite source)"]
     budget = 25 if ctx.quick else 400
+    # the bag invariant of the shuffle buffer for EVERY source length and buffer size (proof system; the proof module
+    # extends the specification that TLC checks and that the scripted-randomness replay binds to the code)
+    from .. import tlaps
+    import concurrent.futures as cf
+    ex = cf.ThreadPoolExecutor(max_workers=1)
+    proof = ex.submit(tlaps.prove, ctx, "ShuffleBuffer_BagProofs", ["BagPreservingForAllSources"])
     obs = R.stage_shuffle(ctx, budget)
     obs += R.stage_round_robin(ctx, budget)
     R.stage_batchmap_model(ctx)
+    proof.result()
+    ex.shutdown()
     # the lazy pool and the Rust map feed this property too: their exactly-once invariants on two configurations
     for T, N in ((2, 5), (3, 3)):
         res = LD.model_check(ctx, f"lp_T{T}N{N}", LD.cfg_constants(T, N), liveness=False, workers=4)
